@@ -391,7 +391,32 @@ func (rt gRoute) instance(r *rand.Rand) []string {
 // mutatePath applies the request-path mutations of DESIGN.md §3.4.
 func mutatePath(r *rand.Rand, segs []string) string {
 	segs = append([]string(nil), segs...)
-	switch r.Intn(16) {
+	switch r.Intn(20) {
+	case 16:
+		// a dot segment put in: "." and ".." are ordinary segment texts for the router (a placeholder binds them, a
+		// literal does not match them); nothing resolves them away
+		i := r.Intn(len(segs) + 1)
+		segs = append(segs[:i], append([]string{pick(r, []string{".", "..", ".well-known", "...", ".a"})}, segs[i:]...)...)
+	case 17:
+		// the case of one letter flipped: literals match byte for byte
+		if len(segs) > 0 {
+			i := r.Intn(len(segs))
+			b := []byte(segs[i])
+			for j := range b {
+				if b[j] >= 'a' && b[j] <= 'z' {
+					b[j] -= 32
+					break
+				} else if b[j] >= 'A' && b[j] <= 'Z' {
+					b[j] += 32
+					break
+				}
+			}
+			segs[i] = string(b)
+		}
+	case 18:
+		// an empty segment put in (a doubled slash inside the path)
+		i := r.Intn(len(segs) + 1)
+		segs = append(segs[:i], append([]string{""}, segs[i:]...)...)
 	case 14:
 		// a near miss inside one segment: one byte dropped
 		if len(segs) > 0 {
